@@ -13,8 +13,8 @@ Theorem C01_build_sem :
   forall (val : Type) (dv : val) (opsem : nat -> list (option val) -> list (clos val) -> list val),
   (forall n ivs c1 c2, Forall2 (fun a b => forall av, a av = b av) c1 c2 -> opsem n ivs c1 = opsem n ivs c2) ->
   forall av : list val,
-  run_plan p' val dv opsem (plan_of_graph p' 0 (mmain m)) av =
-  map (meaning p' val dv opsem (bindv val dv (main_args inputs) av)) (map snd outputs).
+  run_plan p' 0 val dv opsem (plan_of_graph p' 0 (mmain m)) av =
+  map (meaning p' 0 val dv opsem (bindv val dv (main_args inputs) av)) (map snd outputs).
 Proof. exact build_sem. Qed.
 Print Assumptions C01_build_sem.
 
